@@ -206,6 +206,52 @@ def step_compare(run, c, obs_list, key, idmap=None, tol_scale=1.0, warmup=False,
     return g, exps[ci], ret, conv
 
 
+def error_object_twins(run):
+    """What a user-defined error function returns is an array of numbers -- a plain ndarray or an ndarray SUBCLASS such as PoseR2 / PoseR3 (a
+    position residual is naturally one).  The applied step must not depend on the Python type of the error: twin graphs, one whose position prior
+    returns PoseRn objects (and is listed first) and one returning plain arrays, take the same step."""
+    import contextlib
+    import copy
+    import io
+    from graphslam.edge.base_edge import BaseEdge
+    from graphslam.graph import Graph
+    from graphslam.pose.r2 import PoseR2
+    from graphslam.pose.r3 import PoseR3
+    from .. import graphs
+
+    class PosPriorArr(BaseEdge):
+        def calc_error(self):
+            return np.array(self.vertices[0].pose.position) - np.asarray(self.estimate)
+
+        def is_valid(self):
+            return self._is_valid() and len(self.vertices) == 1
+
+    class PosPriorObj(PosPriorArr):
+        def calc_error(self):
+            d = np.array(self.vertices[0].pose.position) - np.asarray(self.estimate)
+            return (PoseR2 if len(d) == 2 else PoseR3)(d)
+    n = 0
+    for kind in ('SE2', 'SE3', 'R2', 'R3'):
+        for seed in (run.seed, run.seed + 1):
+            res = []
+            for cls in (PosPriorArr, PosPriorObj):
+                es, vs, _ = graphs.make(kind, seed, n_landmarks=1)
+                d = B.DIM[kind]
+                target = vs[2]
+                prior = cls([target.id], np.eye(d) * 3.0, np.array(target.pose.position) + 0.25)
+                g = Graph([prior] + es, vs)
+                with contextlib.redirect_stdout(io.StringIO()):
+                    g.optimize(tol=0.0, max_iter=1, verbose=False)
+                res.append([np.array(v.pose) for v in g._vertices])
+            n += 1
+            run.count(key=('error-object-twin', kind, seed), nontrivial=True)
+            dv = max(float(np.max(np.abs(a - b))) for a, b in zip(*res))
+            if not dv <= 1e-9:
+                run.violation(dict(part='error-object-twin', kind=kind), 'one iteration differs by %.3g between a position prior returning PoseRn objects and one returning plain arrays (kind %s, fixture seed %d)' % (dv, kind, seed),
+                              dict(kind=kind, seed=seed))
+    run.notes['error_object_twins'] = n
+
+
 def check(run, cases=None):
     cases_given = cases
     cases = cases if cases is not None else gen(run.tier, run.seed)
@@ -238,6 +284,7 @@ def check(run, cases=None):
     if min(feats.values()) == 0:
         raise RuntimeError('vacuity guard: a feature of the quantifier was never generated: %r' % feats)
     if cases_given is None:
+        error_object_twins(run)
         from . import c04
         c04.large_tree(run, one_step=True)       # size dimension: thousands of vertices, exact step known in closed form
     run.rule = ('lattice graphs of 2-8 vertices (R2, R3, SE2+R2, SE3+R3, mixed dimensionality), edges naming vertices in either order, parallel edges, '
